@@ -465,3 +465,41 @@ func drawPre(r *Rng, cfg SpecConfig, m *ModuleSpec) {
 		add("notes.txt", "top-level notes\n")
 	}
 }
+
+// AddCgoFile moves up to two type declarations of one package of the main module into a new file that
+// imports "C". Reports whether it did.
+func AddCgoFile(r *Rng, m *ModuleSpec) bool {
+	var cands []int
+	for pi, p := range m.Pkgs {
+		if !p.InSub && len(p.Files) > 0 {
+			cands = append(cands, pi)
+		}
+	}
+	if len(cands) == 0 {
+		return false
+	}
+	p := m.Pkgs[Pick(r, cands)]
+	native := &SrcFile{Name: "native.go", Cgo: true}
+	for fi, f := range p.Files {
+		var keep []*Decl
+		for di, d := range f.Decls {
+			movable := false
+			switch d.Kind {
+			case "struct", "scalar", "mapt", "slice", "functype", "iface", "alias", "generic", "grouped":
+				movable = !(fi == 0 && di == 0) && d.Name != p.Anchor
+			}
+			if movable && len(native.Decls) < 2 && r.P(0.6) {
+				d.LineBefore = ""
+				native.Decls = append(native.Decls, d)
+				continue
+			}
+			keep = append(keep, d)
+		}
+		f.Decls = keep
+	}
+	if len(native.Decls) == 0 {
+		native.Decls = append(native.Decls, &Decl{Kind: "struct", Name: "NativeHandle", Doc: []string{"NativeHandle wraps a C resource."}})
+	}
+	p.Files = append(p.Files, native)
+	return true
+}
